@@ -70,12 +70,17 @@ def build(ctx):
             print("ERROR: /repo does not compile:\n" + out)
             return False
         hsrc = HARNESS
-        if os.path.realpath(REPO) != "/repo":
+        wipf = os.path.join(HARNESS, ".wip")   # development only (untracked): engine files still being written
+        wip = open(wipf).read().split() if os.path.exists(wipf) else []
+        if os.path.realpath(REPO) != "/repo" or wip:
             # checking another tree (e.g. a scratch worktree carrying a seeded change): build a copy of
             # the harness module whose `replace` points there
             hsrc = os.path.join(ctx.dir, "harness-src")
             shutil.rmtree(hsrc, ignore_errors=True)
             shutil.copytree(HARNESS, hsrc)
+            for w in wip:
+                if os.path.exists(os.path.join(hsrc, w)):
+                    os.remove(os.path.join(hsrc, w))
             gm = open(os.path.join(hsrc, "go.mod")).read().replace("=> /repo", "=> " + os.path.realpath(REPO))
             open(os.path.join(hsrc, "go.mod"), "w").write(gm)
         shutil.copyfile(os.path.join(REPO, "go.sum"), os.path.join(hsrc, "go.sum"))
